@@ -14,8 +14,11 @@ PROP = dict(
     level_note="Trusts the harness's reference model and snapshot code. Runs as root on the scratch file system (no EACCES faults; faults are "
                "injected through FileState and through directories in the way). Points the statement leaves open are accepted either way and "
                "counted as classes: a symlink resolving to a file with exactly the desired content and mode may be kept; a symlink to a "
-               "directory or a symlink loop at a desired name may be replaced or treated as a write failure; empty directories of the tree in "
-               "which nothing was removed may stay or go; which already-written files appear in `removed` after a failure. FIFOs/devices at "
+               "directory or a symlink loop at a desired name may be replaced or treated as a write failure; in the tree, directories that exist "
+               "only because of the content map, pre-existing empty directories whose own name matches a glob (removed as an entry, possibly "
+               "re-created as a walked sub-directory) and their parents may stay or go, whereas pre-existing directories with nothing removed "
+               "in or below them must stay and directories emptied of managed files must be pruned; which already-written files appear in "
+               "`removed` after a failure. FIFOs/devices at "
                "managed names, unclean or '..' directory keys and managed files inside directories with a managed name are outside the domain.",
     rule="dir: one directory with 0-8 managed names and 0-4 unrelated names drawn from look-alike pools for 6 glob sets (one glob, two globs, "
          "'*', character class), each managed name planned as keep/change/create/remove/alias/self-reference, plus a case shape "
@@ -28,7 +31,7 @@ PROP = dict(
                  "to be rejected without touching unrelated entries)",
                  "glob semantics are those of path/filepath.Match"],
     engines=[
-        gt("dir", "osutil", "TestVerifC23Dir", dict(checks=500, shards=4), dict(checks=8000, shards=10)),
-        gt("tree", "osutil", "TestVerifC23Tree", dict(checks=400, shards=3), dict(checks=6000, shards=6)),
+        gt("dir", "osutil", "TestVerifC23Dir", dict(checks=500, shards=4), dict(checks=6000, shards=10)),
+        gt("tree", "osutil", "TestVerifC23Tree", dict(checks=400, shards=3), dict(checks=4000, shards=6)),
     ],
 )
